@@ -1023,6 +1023,23 @@ def oracle_names(inp, ptx, res, prefix="SUPER_", single_hap=True, bpt_s=None):
         got = [[l[0], l[2]] for l in a["chr_csv"]]
         if a["curated"] and want != got:
             errs.append(f"chromosome list csv lines {got[:4]} differ from expected {want[:4]}")
+        # … and the chromosome column NAMES the chromosome: for a chromosome, its scaffold name without the autosome prefix (the number, or the name
+        # tag); for an unloc, the chromosome name of the chromosome it belongs to (`<chromosome>_unloc_<k>`)
+        if a["curated"] and want == got:
+            chr_of = {}
+            for l in a["chr_csv"]:
+                name, chr_name, localised = l[0], l[1], l[2]
+                if localised:
+                    exp = name[len(prefix):] if name.startswith(prefix) else name
+                    chr_of[name] = chr_name
+                    if chr_name != exp:
+                        errs.append(f"chromosome list csv: chromosome name of {name} is {chr_name!r}, expected {exp!r}")
+                        break
+                else:
+                    base = name.split("_unloc_")[0]
+                    if base in chr_of and chr_name != chr_of[base]:
+                        errs.append(f"chromosome list csv: unloc {name} is attributed to chromosome {chr_name!r}, its chromosome {base} is {chr_of[base]!r}")
+                        break
     return errs
 
 
@@ -1196,6 +1213,61 @@ def make_case(rng, kind, **kw):
                 if end > cut:
                     pieces += [conv.jgap(100), conv.jfrag(0, f"s{n}", cut + 1, end, 1, ["Painted"] + ([special] if special else []))]
                 ptx.append(conv.jscaffold(f"Scaffold_{n}", pieces))
+        return {"kind": "tagged2", "input": inp, "ptx": ptx, "bpt": bpt}
+    if kind == "hapstats":
+        # several-haplotype curation whose per-assembly statistics rows do NOT add up to the totals: input CONTIGS carry an assembly prefix
+        # (`HAP1_ctg3`: the junction sets are keyed by it) in scaffolds painted into the haplotype of that name, next to un-prefixed contigs; joins between
+        # Contaminant-tagged scaffolds and breaks of un-prefixed scaffolds whose halves go to different haplotypes are in the totals but in no row
+        beta = Fraction(bpt)
+        unit = max(40, math.ceil(beta) * 8)
+        hp = rng.choice([("HAP1", "HAP2"), ("hap1", "hap2"), ("Hap1", "Hap2")])
+        inp, oid = [], 0
+
+        def mk_scaffold(names):
+            nonlocal oid
+            rows = []
+            for nm in names:
+                if rows:
+                    rows.append(conv.jgap(200))
+                ln = unit * rng.randint(2, 6)
+                rows.append(conv.jfrag(oid, nm, 1, ln, 1)); oid += 1
+            inp.append(conv.jscaffold(f"s{len(inp)+1}", rows))
+            return inp[-1]
+        nchr = rng.randint(1, 2)
+        per_hap = {h: [mk_scaffold([f"{h}_ctg{len(inp)}_{k}" for k in range(rng.randint(1, 3))]) for _ in range(nchr)] for h in hp}
+        plain = [mk_scaffold([f"ctg{len(inp)}_{k}" for k in range(2)]) for _ in range(rng.randint(1, 2))]
+        contam = [mk_scaffold([f"ctg{len(inp)}_{k}" for k in range(rng.randint(1, 2))]) for _ in range(2)] if rng.random() < 0.7 else []
+
+        def whole(sc_, tags):
+            L = slen(sc_["rows"]); T = math.floor(L / beta)
+            return conv.jfrag(0, sc_["name"], 1, math.floor(T * beta), rng.choice([1, -1]), list(tags))
+
+        def part(sc_, a, b, tags):
+            return conv.jfrag(0, sc_["name"], a, b, 1, list(tags))
+        ptx = []
+        tagname = {h: h[0].upper() + h[1:].lower() for h in hp}          # Hap1 / Hap2 as PretextView tags
+        for i_ in range(nchr):               # homologues next to each other: Hap1 chromosome i, then Hap2 chromosome i (what ChrNamer groups)
+            for h in hp:
+                ptx.append(conv.jscaffold(f"Scaffold_{len(ptx)+1}", [whole(per_hap[h][i_], ["Painted", tagname[h]])]))
+        for sc_ in plain:
+            if rng.random() < 0.6 and len(ptx) >= 2:
+                # break between the two contigs: first half joined to a Hap1 chromosome, second half to a Hap2 chromosome
+                l1 = sc_["rows"][0]["end"]
+                cut = math.floor(math.floor((l1 + 100) / beta) * beta)
+                L = slen(sc_["rows"]); end = math.floor(math.floor(L / beta) * beta)
+                if 0 < cut < end:
+                    ptx[0]["rows"] += [conv.jgap(100), part(sc_, 1, cut, ["Painted", tagname[hp[0]]])]
+                    tgt = next((p_ for p_ in ptx if tagname[hp[1]] in p_["rows"][0]["tags"]), ptx[-1])
+                    tgt["rows"] += [conv.jgap(100), part(sc_, cut + 1, end, ["Painted", tagname[hp[1]]])]
+                    continue
+            ptx.append(conv.jscaffold(f"Scaffold_{len(ptx)+1}", [whole(sc_, [])]))
+        if contam:
+            rows = []
+            for sc_ in contam:
+                if rows:
+                    rows.append(conv.jgap(100))
+                rows.append(whole(sc_, ["Contaminant"]))
+            ptx.append(conv.jscaffold(f"Scaffold_{len(ptx)+1}", rows))
         return {"kind": "tagged2", "input": inp, "ptx": ptx, "bpt": bpt}
     if kind == "targetdrop":
         # Target-mode map from which whole pieces were REMOVED by hand (lines deleted from the AGP): contigs absent from the map lie far
